@@ -33,7 +33,7 @@ RULE = ("case = one random abstract Verilog design (1-3 primitives, 1-5 modules,
 ASSUMPTIONS = ["module ports are based at 0 and downto (quantifier)",
                "bundled .v files have no independent Verilog reader: reduced oracle, stated in the evidence"]
 REQUIRED = {"texts_parsed": 150, "connection_bits_compared": 5000, "modules_compared": 400}
-ALL_FEATURES = ["shuffle", "consts", "undeclared", "positional", "escaped", "params", "attrs", "assigns", "comments", "grouped"]
+ALL_FEATURES = ["shuffle", "consts", "undeclared", "positional", "escaped", "params", "attrs", "assigns", "comments", "grouped", "defparam"]
 DIRS = {"IN": "input", "OUT": "output", "INOUT": "inout", "UNDEFINED": None}
 
 
